@@ -221,13 +221,32 @@ def handle(job):
         try:
             with limit(case.get('timeout', 120)):
                 fresh_db('det')
-                files = []
-                for k, res in enumerate(case['docs']):
+                files = {}
+                # the last document that holds nothing but one extension is installed last. In
+                # processes with an even hash seed it arrives through add_lexical_resource()
+                # after the database has already been read; in the others through add() before
+                # any read: the content is the same, so is every result of the battery
+                docs_ = case['docs']
+                exts = [k for k, res in enumerate(docs_)
+                        if len(res['lexicons']) == 1 and res['lexicons'][0].get('extends')]
+                late = exts[-1] if exts and len(docs_) > 1 else None
+                order = [k for k in range(len(docs_)) if k != late] + ([late] if late is not None else [])
+                for k in order:
                     p = base_dir() / f'det{k}.xml'
-                    p.write_text(lmfgen.to_xml(res), encoding='utf-8')
-                    wn.add(p, progress_handler=None)
-                    files.append(p)
-                case['_files'] = files
+                    p.write_text(lmfgen.to_xml(docs_[k]), encoding='utf-8')
+                    files[k] = p
+                    if k == late and int(os.environ.get('PYTHONHASHSEED') or 0) % 2 == 0:
+                        for y in wn.synsets():
+                            y.senses(), y.hypernyms(), y.words(), y.relations()
+                        for x in wn.words():
+                            x.senses(), x.forms(), x.synsets()
+                        for lx in wn.lexicons():
+                            lx.extensions(), lx.extends(), lx.requires()
+                        wn.ilis()
+                        wn.add_lexical_resource(lmf.load(p, progress_handler=None), progress_handler=None)
+                    else:
+                        wn.add(p, progress_handler=None)
+                case['_files'] = [files[k] for k in range(len(docs_))]
 
                 def rec(key, thunk):
                     try:
